@@ -93,6 +93,11 @@ func (c *Crew) NewCaptainSpec() *core.Spec {
 						if !have {
 							return core.NewExecution(bs.Extend("error", "no op")), nil
 						}
+						// Whatever happens next, forget the message:
+						// with "?op" still bound, the start node's
+						// pattern would only match an identical
+						// message from now on.
+						bs = bs.Copy().Remove("?op")
 						op, err := AsCrewOp(x)
 						if err != nil {
 							return core.NewExecution(bs.Extend("error", "bad crew op: "+err.Error())), nil
